@@ -7,6 +7,7 @@ pub struct FileEventKind { pub v: int }    // notify's EventKind: opaque here (n
 #[derive(Clone, Copy, PartialEq, Eq, Structural)]
 pub struct ProcessEnd { pub v: int }
 pub struct MetaMap;   // Event.metadata: informational, not part of the conservation claim
+impl MetaMap { #[verifier::external_body] pub fn is_empty(&self) -> bool { unimplemented!() } }
 pub struct StrS { pub id: int }
 pub struct Event { pub tags: Vec<Tag>, pub metadata: MetaMap }
 impl MetaMap {
